@@ -48,6 +48,11 @@ func bigSizesC01() []int {
 func TestC01Big(t *testing.T) {
 	col := stats.New("C01", "build")
 	defer col.Write()
+	{
+		c := buildCase{Batch: manyFieldsComposite(), ChunkMode: 0}
+		col.CaseHash(stats.HashJSON("many-fields-composite"), true, []string{"140-fields+composite"}, func() any { return "4 documents x 140 fields + composite _all naming fields with ids around 128" })
+		reportBig(t, col, "C01", "build", c, safeRun(c01, c))
+	}
 	for i, n := range bigSizesC01() {
 		for _, cm := range []uint32{0, 1024} {
 			if n == 76000 && cm != 0 {
@@ -62,6 +67,33 @@ func TestC01Big(t *testing.T) {
 			reportBig(t, col, "C01", "build", c, safeRun(c01, c))
 		}
 	}
+}
+
+// manyFieldsComposite: 4 documents x 140 fields with one distinct location each, plus a composite
+// field "_all" (low field id) whose tokens carry the locations of all of them, naming source
+// fields with ids on both sides of 128; the term "x" occurs in every document of fields f139 and _all.
+func manyFieldsComposite() *spec.BatchSpec {
+	b := &spec.BatchSpec{}
+	for d := 0; d < 4; d++ {
+		doc := spec.DocSpec{ID: spec.B(fmt.Sprintf("m%d", d))}
+		comp := spec.FieldSpec{Name: "_all", Type: 'c'}
+		x := spec.TokenSpec{Term: "x"}
+		for k := 0; k < 140; k++ {
+			name := fmt.Sprintf("f%03d", k)
+			loc := spec.LocSpec{Pos: 1 + d + k%3, Start: k, End: k + 2 + d}
+			doc.Fields = append(doc.Fields, spec.FieldSpec{Name: name, Type: 't', Len: 1, Tokens: []spec.TokenSpec{{Term: "x", Freq: 1, Locs: []spec.LocSpec{loc}}}})
+			if k == 3 || k >= 126 {
+				loc.Field = name
+				x.Locs = append(x.Locs, loc)
+				x.Freq++
+				comp.Len++
+			}
+		}
+		comp.Tokens = []spec.TokenSpec{x}
+		doc.Composite = []spec.FieldSpec{comp}
+		b.Docs = append(b.Docs, doc)
+	}
+	return b
 }
 
 func TestC06Big(t *testing.T) {
@@ -91,7 +123,7 @@ func TestC06Big(t *testing.T) {
 func TestC07Big(t *testing.T) {
 	col := stats.New("C07", "large")
 	defer col.Write()
-	n := 70000
+	n := 76000 // two bitmap containers of > 4096 hits each: the serialized bitmap exceeds 16 KiB
 	provs, cms := []int{1, 2}, []uint32{1026}
 	if os.Getenv("VERIF_TIER") == "thorough" {
 		provs, cms = []int{0, 1, 2}, []uint32{1026, 1024, 64}
@@ -189,6 +221,22 @@ func c06FixedPlans() []planCase {
 		out = append(out, planCase{Plan: &spec.MergePlan{ChunkMode: cm, Children: []spec.MergePlan{{Leaf: &spec.BatchSpec{}},
 			{Leaf: &spec.BatchSpec{Wide: &spec.WideSpec{N: 1100, Locs: true, DV: true}}, Mmap: true}},
 			Drops: []spec.DropSpec{{Nil: true}, drop1}}})
+	}
+	// a term that is a single-hit dictionary entry in a merged input (one document, frequency 1, no
+	// locations), whose document is deleted by the next merge while 1023 documents of another
+	// input carry the term: the surviving cardinality sits one below a chunk-count step
+	for _, cm := range []uint32{1026, 1025} {
+		mkdoc := func(id, term string) spec.DocSpec {
+			return spec.DocSpec{ID: spec.B(id), Fields: []spec.FieldSpec{{Name: spec.WideFieldName, Type: 't', Len: 1, Tokens: []spec.TokenSpec{{Term: spec.B(term), Freq: 1}}}}}
+		}
+		n := 1023
+		if cm == 1025 {
+			n = 1024
+		}
+		gen1 := spec.MergePlan{ChunkMode: cm, Children: []spec.MergePlan{{Leaf: &spec.BatchSpec{Docs: []spec.DocSpec{mkdoc("h0", "all")}}}, {Leaf: &spec.BatchSpec{Docs: []spec.DocSpec{mkdoc("h1", "other")}}}},
+			Drops: []spec.DropSpec{{Nil: true}, {Nil: true}}}
+		out = append(out, planCase{Plan: &spec.MergePlan{ChunkMode: cm, Children: []spec.MergePlan{gen1, {Leaf: &spec.BatchSpec{Wide: &spec.WideSpec{N: n}}}},
+			Drops: []spec.DropSpec{{Docs: []uint32{0}}, {Nil: true}}}})
 	}
 	// 140 fields with locations, merged by re-encoding (the second input has one more field): field
 	// ids cross the 127/128 varint boundary inside the location records
